@@ -22,6 +22,23 @@ impl<'a> DataRecorder for VecRecorder<'a> {
     }
 }
 
+/// recorder that accepts `limit` bytes and then refuses (Ok(0)) or fails (Err)
+pub struct FailingRecorder {
+    pub taken: usize,
+    pub limit: usize,
+    pub hard_error: bool,
+}
+impl DataRecorder for FailingRecorder {
+    fn write(&mut self, buf: &[u8]) -> Result<usize, IoError> {
+        if self.taken >= self.limit {
+            return if self.hard_error { Err(IoError::HostAssetImplFailed) } else { Ok(0) };
+        }
+        let n = buf.len().min(self.limit - self.taken);
+        self.taken += n;
+        Ok(n)
+    }
+}
+
 #[derive(Clone, Copy, Debug, PartialEq, Eq, Serialize, Deserialize)]
 pub enum Receiver {
     /// the same emulator, after running a scrambling program for some frames
@@ -42,6 +59,17 @@ pub struct Case {
     pub ram_seed: u64,
     pub edits: Vec<(u8, u16, u8)>,
     pub receiver: Receiver,
+    /// the saved machine is halted (HALT at PC executed before the snapshot is taken)
+    #[serde(default)]
+    pub saved_halted: bool,
+    /// the host's recorder refuses data after this many bytes (Ok(0) for even, Err for odd
+    /// values): save_snapshot fails and the running machine must be as it was
+    #[serde(default)]
+    pub recorder_fails_after: Option<u32>,
+    /// behaviour step: INT is already active when the loaded machine starts (frame clock 4)
+    /// instead of arriving 30 T-states later
+    #[serde(default)]
+    pub int_active_at_load: bool,
 }
 
 /// code placed at PC in the saved state: exercises HL (so a leaked DD prefix shows), the stack,
@@ -197,8 +225,43 @@ pub fn check(c: &Case, rec: &mut Rec) -> Result<(), String> {
             return Ok(());
         }
     }
-    let (mut e, mm) = build(c)?;
+    let (mut e, mut mm) = build(c)?;
+    if c.saved_halted {
+        mach::poke(&mut e, &mut mm, c.regs.pc, 0x76);
+        e.verif_set_frame_clocks(20_000);
+        mach::single_step(&mut e)?;
+        if !e.verif_cpu().halted {
+            return Err("harness: the machine to be saved did not halt".into());
+        }
+        rec.class("saved-machine-halted");
+    }
     let before = read_state(&mut e, machine);
+    if let Some(n) = c.recorder_fails_after {
+        // a save that fails half-way must leave the running machine as it was, too
+        let limit = n as usize % 49_000;
+        let r = e.save_snapshot(SnapshotRecorder::Sna(FailingRecorder { taken: 0, limit, hard_error: n % 2 == 1 }));
+        rec.eval();
+        if r.is_ok() {
+            return Err(format!("save_snapshot returned Ok although the recorder took only {} bytes", limit));
+        }
+        let after = read_state(&mut e, machine);
+        if after.regs != before.regs || after.latch != before.latch || after.locked != before.locked || after.border != before.border {
+            return Err(format!(
+                "save_snapshot failed (recorder refused data after {} bytes) and left the running machine changed: registers before {:x?}, after {:x?}",
+                limit, before.regs, after.regs
+            ));
+        }
+        for b in 0..machine.ram_banks() as usize {
+            if after.ram[b] != before.ram[b] {
+                let pos = after.ram[b].iter().zip(before.ram[b].iter()).position(|(x, y)| x != y).unwrap();
+                return Err(format!(
+                    "save_snapshot failed (recorder refused data after {} bytes) and left memory changed: RAM bank {} offset {:#06x} was {:#04x}, now {:#04x} (SP = {:#06x}, PC = {:#06x})",
+                    limit, b, pos, before.ram[b][pos], after.ram[b][pos], before.regs.sp, before.regs.pc
+                ));
+            }
+        }
+        rec.class("failed-save-is-side-effect-free");
+    }
     // (a) save
     let mut file = Vec::new();
     e.save_snapshot(SnapshotRecorder::Sna(VecRecorder(&mut file))).map_err(|x| format!("save_snapshot failed: {:?}", x))?;
@@ -225,6 +288,11 @@ pub fn check(c: &Case, rec: &mut Rec) -> Result<(), String> {
     want.iff1 = want.iff2; // the format carries IFF2 only
     let mut got = parsed.state.regs.clone();
     got.iff1 = got.iff2;
+    if c.saved_halted {
+        // which address stands for "halted at this HALT" is the implementation's convention; the
+        // behaviour step below decides whether the restored machine is where the saved one was
+        got.pc = want.pc;
+    }
     if got != want {
         return Err(format!("saved file describes registers {:x?}, machine had {:x?}", got, want));
     }
@@ -237,8 +305,8 @@ pub fn check(c: &Case, rec: &mut Rec) -> Result<(), String> {
     for b in 0..machine.ram_banks() as usize {
         let mut expect = before.ram[b].clone();
         if machine == Machine::K48 {
-            // PC lives on the stack in the file
-            for (k, byte) in before.regs.pc.to_le_bytes().iter().enumerate() {
+            // PC lives on the stack in the file (the file's own PC: see the note on halted machines)
+            for (k, byte) in parsed.state.regs.pc.to_le_bytes().iter().enumerate() {
                 let a = before.regs.sp.wrapping_sub(2).wrapping_add(k as u16);
                 if a >= 0x4000 && (a as usize - 0x4000) / mach::PAGE == b {
                     expect[(a as usize - 0x4000) % mach::PAGE] = *byte;
@@ -262,6 +330,9 @@ pub fn check(c: &Case, rec: &mut Rec) -> Result<(), String> {
     lw.iff1 = lw.iff2;
     let mut lg = loaded.regs.clone();
     lg.iff1 = lg.iff2;
+    if c.saved_halted {
+        lg.pc = lw.pc;
+    }
     if lg != lw {
         return Err(format!("after save+load (receiver {:?}) registers are {:x?}, saved state had {:x?}", c.receiver, lg, lw));
     }
@@ -304,10 +375,13 @@ pub fn check(c: &Case, rec: &mut Rec) -> Result<(), String> {
     // (c) behaviour: the next instructions, with an interrupt on the way, match the reference
     // machine started from the saved state (catches leaked halted / prefix / EI-pending state)
     let frame_len = machine.frame_len() as u64;
-    let t0 = frame_len - 30;
+    let t0 = if c.int_active_at_load { 4 } else { frame_len - 30 };
     r.verif_set_frame_clocks(t0 as usize);
     let mut m = RefMachine::new(mm2);
-    set_ref(&mut m.cpu, &CpuState { regs: lw.clone(), memptr: 0, q_is_f: false, halted: false, no_int: false });
+    set_ref(&mut m.cpu, &CpuState { regs: lw.clone(), memptr: 0, q_is_f: false, halted: c.saved_halted, no_int: false });
+    if c.int_active_at_load {
+        rec.class("int-active-when-the-loaded-machine-starts");
+    }
     m.cpu.iff1 = lw.iff2;
     m.bus.t = t0;
     let tb = crate::e2::TimeBase::new(&r, machine);
@@ -434,7 +508,10 @@ pub fn case_strategy() -> impl Strategy<Value = Case> {
             if regs.sp.wrapping_sub(pc) < 40 || pc.wrapping_sub(regs.sp) < 8 {
                 regs.sp = pc.wrapping_add(0x200);
             }
-            Case { machine, regs, border, latch, ram_seed, edits, receiver }
+            let saved_halted = ram_seed % 7 == 0;
+            let recorder_fails_after = if ram_seed % 5 == 1 { Some((ram_seed >> 16) as u32) } else { None };
+            let int_active_at_load = ram_seed % 3 == 0;
+            Case { machine, regs, border, latch, ram_seed, edits, receiver, saved_halted, recorder_fails_after, int_active_at_load }
         })
 }
 
@@ -451,7 +528,7 @@ pub fn replay(run: &mut Run, phase: &str, case: &serde_json::Value) -> Result<()
 }
 
 pub const LEVEL: &str = "exploration";
-pub const RULE: &str = "case = machine x arbitrary register file (alternates, I, R, IM, IFF1/IFF2) x border x 128K latch (all 256 values incl. lock, bank 5/2 paged at 0xC000) x RAM contents (seeded pattern + sparse edits in every bank) x SP anywhere (a quarter of the cases at a 16 KiB page boundary +-2, so that the two bytes below SP lie in different pages) x receiver in {same emulator after 1..4 frames of a scrambling program, fresh, halted, stopped mid DD-chain, paging locked + other border, EI pending}. Checked: (a) registers, every RAM bank, latch and border read through hooks are identical before and after save_snapshot, and the produced file parsed by the harness' own SNA parser describes that state; (b) after load_snapshot of the produced file every carried item, the latch with its lock, every RAM byte and all 65536 CPU-visible bytes equal the saved state; (c) the next 10 instructions, with the frame interrupt arriving on the way, match the reference machine continuing from the saved state; (d) the restored machine is then saved again and that file loaded into a fresh emulator must give the state it had (second generation). non-trivial = alternate set differs from main set, >= 2 RAM edits, receiver not fresh; distinct = hash of the case";
+pub const RULE: &str = "case = machine x arbitrary register file (alternates, I, R, IM, IFF1/IFF2) x border x 128K latch (all 256 values incl. lock, bank 5/2 paged at 0xC000) x RAM contents (seeded pattern + sparse edits in every bank) x SP anywhere (a quarter of the cases at a 16 KiB page boundary +-2, so that the two bytes below SP lie in different pages) x receiver in {same emulator after 1..4 frames of a scrambling program, fresh, halted, stopped mid DD-chain, paging locked + other border, EI pending}. A seventh of the saved machines are halted; in a fifth of the cases the host's recorder first refuses data after a generated number of bytes (the failed save must leave the machine as it was). Checked: (a) registers, every RAM bank, latch and border read through hooks are identical before and after save_snapshot, and the produced file parsed by the harness' own SNA parser describes that state; (b) after load_snapshot of the produced file every carried item, the latch with its lock, every RAM byte and all 65536 CPU-visible bytes equal the saved state; (c) the next 10 instructions, with the frame interrupt arriving on the way (or, in a third of the cases, already active when the loaded machine starts), match the reference machine continuing from the saved state; (d) the restored machine is then saved again and that file loaded into a fresh emulator must give the state it had (second generation). non-trivial = alternate set differs from main set, >= 2 RAM edits, receiver not fresh; distinct = hash of the case";
 pub const ASSUMPTIONS: &[&str] = &[
     "48K proviso of the property (two bytes below SP are RAM) is a generator-side skip, counted; on the 48K the two bytes below SP may hold PC after a load (format)",
     "IFF1 is not carried by the format: only IFF2 is compared",
